@@ -44,4 +44,16 @@ def make(rng, name):
         hs = [h["i"] for h in spec["handlers"] if not h["fallible"]]
         pick = [i for i in hs if rng.random() < 0.7]
         spec["route_imports"] = {str(i): k for k, i in enumerate(pick)}
+    # the same middleware registered twice in a row against one blueprint: it wraps / runs twice
+    def lists(ops, acc):
+        acc.append(ops)
+        for op in ops:
+            if op[0] == "nest":
+                lists(op[1]["ops"], acc)
+        return acc
+    if rng.random() < 0.6:
+        cands = [(l, k) for l in lists(spec["bp"], []) for k, op in enumerate(l) if op[0] in ("wrap", "pre", "post")]
+        if cands:
+            l, k = rng.choice(cands)
+            l.insert(k + 1, list(l[k]))
     return spec
